@@ -8,6 +8,8 @@
            RPUSH, GET, unknown command, wrong arity, nested MULTI, WATCH inside MULTI) / EXEC or
            DISCARD; client B writes in EVERY gap (same value again, other value, DEL, type-specific
            change, change-then-revert, unrelated key); watched key of type none/string/list/hash.
+   Edge family: the watched key changes only because its deadline passes in real time between WATCH
+           and EXEC, or it holds a value of up to 5 MiB (ConnTrace!WatchCaseVerdict).
 3. TV    : ConnTrace replays the script on the model: every reply of both clients, and the
            keyspace at the end, must be the model's.
 """
@@ -47,6 +49,12 @@ def run(tier):
         st = evs[0].get("steps", [])
         if any(s["who"] == "B" for s in st[1:]) and any(s["c"]["op"] in ("EXEC", "DISCARD") for s in st):
             nt += 1
+    # WATCH at its edges: the watched key expires in real time between WATCH and EXEC (nothing touches it),
+    # or holds a value of 64 KiB .. 5 MiB that is, or is not, modified
+    tr = os.path.join(wd, "wcase.ndjson")
+    vlib.vh(["conn", "txn", "--level", "wcase", "--seed", vlib.seed() * 100 + 88, "--n", 240 if thorough else 60, "--out", tr])
+    runs, bad = vlib.validate_runs(rep, "ConnTrace", "ConnTrace", tr, wd, "watch_edges", dev_cfgs=DEV, describe=describe)
+    nt += len(runs)
     rep.cov["distinct_nontrivial"] = nt
     rep.cov["rule"] = ("a case is one transaction script of client A with client B's writes in the gaps, through two real "
                        "connection handlers; non-trivial = B wrote at least once and A reached EXEC or DISCARD")
